@@ -525,13 +525,13 @@ theorem runErr?_some (r : Run K) (e : Err) (h : runErr? r = some e) : r.result =
     run ends in `RecursionError` having multiplied the buffer once per frame -/
 theorem inplaceUfunc_diverges (C : Ctx K) (o : OutInfo K) (c : Call K) (u : UnitR K) (u' : UnitV K)
     (h1 : (dispatch C c).effects = [.writeOut 0, .scaleOut, .setOutUnits 0 u'])
-    (h2 : o.unit = some u) (h3 : nestedCall C o u c.out = c) :
+    (h2 : o.unit = some u) (h3 : nestedCall C o u c.out = c) (hp : o.promotable = true) :
     ∀ fuel, (inplaceUfunc C o fuel c).result = .error .RuntimeError
       ∧ (inplaceUfunc C o fuel c).effects = List.replicate fuel (.kernel "ufunc") := by
   intro fuel
   induction fuel with
   | zero => exact ⟨rfl, rfl⟩
   | succ n ih =>
-    simp [inplaceUfunc, h1, convEffects, h2, h3, ih.1, ih.2, List.replicate_succ]
+    simp [inplaceUfunc, h1, convEffects, h2, h3, hp, ih.1, ih.2, List.replicate_succ]
 
 end Unyt.Effects
